@@ -10,6 +10,8 @@ package main
 //           mfl <slot> <n>      finish it, but the new owner lags behind: it still answers <n> commands with MOVED <old owner>
 //           ml <slot>           the new owner learns
 //           w                   give the proxy time to refresh its routing table
+//           qx <request tokens> a request whose reply is lost: the node executes it and the connection dies (single key)
+//   optional 4th header field new=<k>: node k owns no slot, is not a configured host and is slow (a node that just joined)
 //   bg = 1: a second connection keeps reading its own key through the proxy during the whole case
 //   output: replies joined by " ; " || final data per key (merged over the nodes) || executions per request ||
 //           redirected-to-client=<n> lost-or-duplicated-keys=<n>
@@ -141,8 +143,17 @@ func runC04(line string) string {
 		layout = append(layout, [3]int{lo, hi, nd})
 	}
 	cl.setLayout(layout)
+	// new=<k>: node k has just joined: it owns no slot, is not a configured host, and answers slowly
+	newcomer := -1
+	if len(f) > 3 && strings.HasPrefix(f[3], "new=") {
+		newcomer, _ = strconv.Atoi(strings.TrimPrefix(f[3], "new="))
+	}
 	var seeds []string
-	for _, nd := range cl.nodes {
+	for i, nd := range cl.nodes {
+		if i == newcomer {
+			nd.delayMs = 12
+			continue
+		}
 		seeds = append(seeds, nd.addr)
 	}
 	sp := startRedisProxy(seeds, 0)
@@ -282,7 +293,9 @@ func runC04(line string) string {
 				replies = append(replies, r.String())
 				execs = append(execs, "1")
 			}
-		case "q":
+		case "q", "qx":
+			// qx: the node executes the command and the connection dies before the reply: the client gets an error,
+			// the command has taken effect exactly once
 			body := fs[1:]
 			var hook []c04Step
 			for i, x := range body {
@@ -306,10 +319,12 @@ func runC04(line string) string {
 			for _, nd := range cl.nodes {
 				nd.log = nil
 			}
+			cl.dropNextExec = fs[0] == "qx"
 			cl.mu.Unlock()
 			sc.send(v.bytes(), nil)
 			r, err := sc.recv(4 * time.Second)
 			cl.mu.Lock()
+			cl.dropNextExec = false
 			if cl.onAsk != nil {
 				cl.onAsk()
 			}
@@ -317,7 +332,7 @@ func runC04(line string) string {
 			first, firstSeq := -1, 0
 			for _, nd := range cl.nodes {
 				for _, e := range nd.log {
-					if e.result == "exec" && !strings.Contains(e.cmd, hex.EncodeToString([]byte("bg:key"))) {
+					if strings.HasPrefix(e.result, "exec") && !strings.Contains(e.cmd, hex.EncodeToString([]byte("bg:key"))) {
 						ex++
 					}
 					if (e.result == "exec" || e.result == "moved" || e.result == "ask") && (first < 0 || e.seq < firstSeq) {
@@ -332,6 +347,33 @@ func runC04(line string) string {
 			execs = append(execs, strconv.Itoa(ex))
 			if err != nil {
 				replies = append(replies, "TIMEOUT")
+				continue
+			}
+			if fs[0] == "qx" {
+				if r.t == '-' {
+					replies = append(replies, "LOST")
+				} else {
+					replies = append(replies, "ANSWERED:"+r.String())
+				}
+				// the proxy drops the dead connection: sacrificial requests for a key of that node until one is answered
+				if len(v.a) >= 2 {
+					owns := simSlot(v.a[1].s)
+					var pk []byte
+					for i := 0; ; i++ {
+						pk = []byte("probe" + strconv.Itoa(i))
+						if simSlot(pk) == owns {
+							break
+						}
+					}
+					for try := 0; try < 40; try++ {
+						sc.send(bulkArr([]byte("exists"), pk).bytes(), nil)
+						rp, perr := sc.recv(4 * time.Second)
+						if perr == nil && rp.t != '-' {
+							break
+						}
+						time.Sleep(15 * time.Millisecond)
+					}
+				}
 				continue
 			}
 			replies = append(replies, r.String())
@@ -464,6 +506,10 @@ func init() {
 				break
 			}
 			n := 2 + r.intn(3)
+			newc := -1 // a node that has just joined: no slots, not a configured host
+			if n >= 3 && r.chance(1, 4) {
+				newc = n - 1
+			}
 			// a handful of keys; migrations concern their slots
 			var keys [][]byte
 			for j := 0; j < 5; j++ {
@@ -523,6 +569,9 @@ func init() {
 						return "mk " + hex.EncodeToString(k)
 					}
 					migrating[sl] = true
+					if newc >= 0 && r.chance(2, 3) {
+						return fmt.Sprintf("mb %d %d", sl, newc)
+					}
 					return fmt.Sprintf("mb %d %d", sl, r.intn(n))
 				case 1, 2:
 					return "mk " + hex.EncodeToString(k)
@@ -563,7 +612,7 @@ func init() {
 				case 0, 1, 2:
 					items = append(items, step(-1))
 				case 3:
-					if x := r.intn(n); r.chance(1, 3) && !deadSeed[x] && len(deadSeed) < n-1 {
+					if x := r.intn(n); r.chance(1, 3) && !deadSeed[x] && x != newc && (len(deadSeed) < n-2 || (newc < 0 && len(deadSeed) < n-1)) {
 						// never the last configured host: the proxy learns the layout from its configured hosts only
 						deadSeed[x] = true
 						items = append(items, fmt.Sprintf("fo %d", x))
@@ -576,6 +625,10 @@ func init() {
 						continue
 					}
 					q := "q " + req()
+					if !multi && r.chance(1, 10) {
+						items = append(items, "qx"+q[1:])
+						continue
+					}
 					if !multi && r.chance(1, 3) {
 						// hook steps must not begin a migration of a slot touched by this request: use key moves / finishes only
 						var hs []string
@@ -599,6 +652,11 @@ func init() {
 			bg := "0"
 			if r.chance(1, 3) {
 				bg = "1"
+			}
+			if newc >= 0 {
+				hist["with a node that has just joined"]++
+				runLine(fmt.Sprintf("%d %s %s new=%d # %s", n, c03Layout(r, n-1), bg, newc, strings.Join(items, " ; ")))
+				continue
 			}
 			runLine(fmt.Sprintf("%d %s %s # %s", n, c03Layout(r, n), bg, strings.Join(items, " ; ")))
 		}
